@@ -206,10 +206,18 @@ def execute_step(m: Machine, step, prop_of):
                 return None
             kind = step.get("ids_kind") or (
                 "ndarray" if step.get("ids_np") else "list")
-            arg = {"ndarray": lambda: np.array(ids, dtype=int),
+            dt = step.get("ids_dtype")
+            if dt is not None:
+                info = np.iinfo(np.dtype(dt))
+                if not all(info.min <= i <= info.max for i in ids):
+                    dt = None  # these ids are not representable in it
+            arg = {"ndarray": lambda: np.array(ids, dtype=dt or int),
                    "tuple": lambda: tuple(ids),
                    "list": lambda: list(ids)}[kind]()
             m.probe_hit("reduce_to_ids_" + kind)
+            if kind == "ndarray" and dt is not None and (
+                    np.dtype(dt).itemsize < 4):
+                m.probe_hit("reduce_to_ids_narrow_integer_array")
             e.obj.reduce_to_ids(arg)
             e.model = e.model.subset(ids)
             receivers.append(e)
@@ -398,7 +406,16 @@ def execute_step(m: Machine, step, prop_of):
                 evo.trajectory.merge(_merge_arg(ents, step))
                 m.probe_hit("merge_with_shared_stamps")
                 return [], [], False
-            o = evo.trajectory.merge(_merge_arg(ents, step))
+            arg = _merge_arg(ents, step)
+            order = [id(x) for x in arg]
+            o = evo.trajectory.merge(arg)
+            if [id(x) for x in arg] != order:
+                # the collection is an argument object as well: what the
+                # caller keeps in parallel (names, colours) relies on it
+                raise Violation(prop_of["derived"], "argument-changed", op=op,
+                                fn="merge (the caller's collection was "
+                                "reordered or changed)",
+                                container=step.get("container"))
             if any(o is x.obj for x in ents):
                 raise Violation(prop_of["derived"], "merge-returned-argument",
                                 op=op, container=step.get("container"),
@@ -712,7 +729,12 @@ def do_compute(m: Machine, step):
               if u in m.results]
         if not rs:
             return
+        order = [id(r) for r in rs]
         out = evo.result.merge_results(rs)
+        if [id(r) for r in rs] != order:
+            raise Violation("C16", "argument-changed", op="compute",
+                            fn="merge_results (the caller's list was "
+                            "reordered or changed)")
         derived = []
         if len(rs) > 1:
             if any(out is r for r in rs):
@@ -1124,6 +1146,8 @@ def gen_step(m: Machine, rng, uid):
         if op == "reduce_to_ids":
             k = rng.randint(1, n)
             ids = sorted(rng.sample(range(n), k))
+            id_dtype = rng.choice([None, None, "int32", "uint8", "int8",
+                                   "uint16", "int16", "uint64", "intp"])
             # any list of valid indices is a legal argument: permuted and
             # repeated ids (always for paths, sometimes for stamped objects,
             # whose time stamps then stop being ascending - evo's check()
@@ -1149,6 +1173,7 @@ def gen_step(m: Machine, rng, uid):
                 else:
                     ids = ids[::-1]
             return {"op": op, "uid": uid, "obj": e.uid, "ids": ids,
+                    "ids_dtype": id_dtype,
                     "ids_kind": rng.choice(["list", "ndarray", "list",
                                             "ndarray", "tuple"])}
         if op == "downsample":
